@@ -178,6 +178,15 @@ func (c *ctx) modeFlag() {
 					if neutral {
 						s, isC := constStr(fc, ret.Results[0])
 						neutral = isC && s == ""
+						// or: base mode writes the output as it is (`return os.WriteFile(g.outputPath, ...)`), the
+						// source-map region below post-processes comments and writes to the same path
+						if call, ok := ret.Results[0].(*ast.CallExpr); ok && !neutral {
+							if fullName(astx.Callee(info, call)) == "os.WriteFile" && len(call.Args) > 0 {
+								if se, ok := astx.Unparen(call.Args[0]).(*ast.SelectorExpr); ok && se.Sel.Name == "outputPath" {
+									neutral = true
+								}
+							}
+						}
 					}
 				}
 				if !neutral {
@@ -303,20 +312,19 @@ func (c *ctx) modeFlag() {
 			return true
 		})
 	}
-	// resetMagicTokens: replacement text is a comment
+	// resetMagicTokens (and whatever it delegates to): every formatted write is a comment
 	if fc, fd := c.findFunc(c.inter.PkgPath, "generator", "resetMagicTokens"); fd != nil {
-		good := false
-		ast.Inspect(fd.Body, func(n ast.Node) bool {
-			if call, ok := n.(*ast.CallExpr); ok && fullName(astx.Callee(fc.pkg.TypesInfo, call)) == "fmt.Fprintf" {
-				if s, ok := constStr(fc, call.Args[1]); ok && isCommentFormat(s) {
-					good = true
-				} else {
+		nFmt, good := 0, true
+		c.reachesCall(fc, fd.Body, func(f2 *fileCtx, call *ast.CallExpr) bool {
+			if fullName(astx.Callee(f2.pkg.TypesInfo, call)) == "fmt.Fprintf" && len(call.Args) > 1 {
+				nFmt++
+				if s, ok := constStr(f2, call.Args[1]); !ok || !isCommentFormat(s) {
 					good = false
 				}
 			}
-			return true
-		})
-		c.s.Check(good, "G16", "generator.resetMagicTokens|replaces comment groups by a comment", c.pos(fd), "", "the magic-token pass writes non-comment text")
+			return false // keep walking
+		}, map[*ast.FuncDecl]bool{})
+		c.s.Check(good && nFmt > 0, "G16", "generator.resetMagicTokens|replaces comment groups by a comment", c.pos(fd), "", "the magic-token pass writes non-comment text")
 	}
 }
 
@@ -382,6 +390,23 @@ func (c *ctx) dependsOn() {
 			if kv, ok := nn.(*ast.KeyValueExpr); ok {
 				if id, ok := kv.Key.(*ast.Ident); ok && id.Name == "Dependencies" {
 					lit, _ = kv.Value.(*ast.FuncLit)
+					if lit == nil {
+						// a method value / named function: `Dependencies: f.funcDependencies`
+						var fobj *types.Func
+						switch v := astx.Unparen(kv.Value).(type) {
+						case *ast.SelectorExpr:
+							fobj, _ = info.Uses[v.Sel].(*types.Func)
+						case *ast.Ident:
+							fobj, _ = info.Uses[v].(*types.Func)
+						}
+						if fobj != nil {
+							for _, f2 := range c.files {
+								if d := astx.DeclOfFunc(f2.pkg.TypesInfo, []*ast.File{f2.file}, fobj); d != nil && d.Body != nil {
+									lit = &ast.FuncLit{Type: d.Type, Body: d.Body}
+								}
+							}
+						}
+					}
 					if vid, ok := kv.Value.(*ast.Ident); ok && lit == nil {
 						// a local function value defined once: `deps := func(i int) []int {...}`
 						obj := astx.IdentObj(info, vid)
@@ -705,6 +730,35 @@ func (c *ctx) verbatimWrite(fc *fileCtx, call *ast.CallExpr, arg ast.Expr, depth
 	return false
 }
 
+// reachesCall: fd (transitively, through functions declared in stratum B) contains a call satisfying pred.
+func (c *ctx) reachesCall(fc *fileCtx, root ast.Node, pred func(fc *fileCtx, call *ast.CallExpr) bool, seen map[*ast.FuncDecl]bool) bool {
+	found := false
+	ast.Inspect(root, func(n ast.Node) bool {
+		call, ok := n.(*ast.CallExpr)
+		if !ok || found {
+			return !found
+		}
+		if pred(fc, call) {
+			found = true
+			return false
+		}
+		fn := astx.Callee(fc.pkg.TypesInfo, call)
+		if fn == nil {
+			return true
+		}
+		for _, f2 := range c.files {
+			if d := astx.DeclOfFunc(f2.pkg.TypesInfo, []*ast.File{f2.file}, fn); d != nil && d.Body != nil && !seen[d] {
+				seen[d] = true
+				if c.reachesCall(f2, d.Body, pred, seen) {
+					found = true
+				}
+			}
+		}
+		return true
+	})
+	return found
+}
+
 // callsReach: fd (transitively, through functions declared in stratum B) calls a function named `name`.
 func (c *ctx) callsReach(fc *fileCtx, fd *ast.FuncDecl, name string, seen map[*ast.FuncDecl]bool) bool {
 	if fd == nil || fd.Body == nil || seen[fd] {
@@ -877,6 +931,7 @@ func (c *ctx) typeKeyed() {
 
 // Rules is the G-rule catalogue.
 var Rules = []report.Rule{
+	{ID: "G26", Floor: 1, Props: []string{"C14", "C13"}, Text: "the depth-first cycle search writes its memo only after a node's subtree was searched, or else tests the path first with the memo's key"},
 	{ID: "G25", Floor: 3, Props: []string{"C20", "C13"}, Text: "package-level names generated in modifier mode are injective in (file, line, column): every integer component of the name is preceded by a non-digit literal separator"},
 	{ID: "G1", Floor: 6, Props: []string{"C17"}, Text: "every range over a map / typeutil.Map.Keys() only fills sets, emits diagnostics, or builds slices that are sorted before any other use"},
 	{ID: "G2", Floor: 4, Props: []string{"C17"}, Text: "no clock/environment/random/introspection source is consulted except the random magic token, which is read only by the comment printer (source-map mode) and the comment replacer; no go/select in the generator"},
@@ -929,5 +984,6 @@ func Run(repo *load.Repo, s *report.Sink) error {
 	c.bounds()
 	c.nilSafety()
 	c.generatedNames()
+	c.cycleSearch()
 	return nil
 }
